@@ -3,6 +3,7 @@
 # applies the seeded change to /repo, runs the check, restores /repo
 d="$1"; p="$2"; t="${3:-quick}"; shift; shift; [ $# -gt 0 ] && shift
 cd /repo && git apply "$d/patch.diff" || { echo "patch does not apply"; exit 9; }
+trap 'cd /repo && git checkout -- .; exit 143' TERM INT HUP
 cd /verif && timeout 1800 ./check "$p" "$t" "$@" > /tmp/seed-$p.log 2>&1; rc=$?
 cd /repo && git checkout -- . && git status --short | grep -v '^??' | head -3
 echo "check exit=$rc"; grep -E "^(VIOLATION|KNOWN|UNCONFIRMED|INCONCLUSIVE|ENCODER|COVER|summary)" /tmp/seed-$p.log | cut -c1-260 | head -8
